@@ -16,13 +16,23 @@ NOT_YET = "rules designed in DESIGN.md but not armed in the checker yet; nothing
 prop("C01", False, "", "", "", NOT_YET)
 prop("C02", False, "", "", "", NOT_YET)
 prop("C03", False, "", "", "", NOT_YET)
-prop("C04", False, "", "", "", NOT_YET)
+prop("C04", True,
+     "abstract interpretation over the order domain (all weak orderings of the coordinates, exhaustive) + affine loop analysis + path-sensitive guard-freshness dataflow in the iterator closures",
+     "Decides structural necessary conditions on every path/ordering: (R1) Extend/extendPoint are the lattice join with nil/empty operands as identities, NewBounds is the join identity, Overlaps/Empty/Copy and box-box Intersection match their order-level specification for every weak ordering of the eight coordinates incl. the canonical empty box; "
+     "(R2) every Bounds()/Len() is a complete fold over the receiver; (R3) every nested access in a Points() closure sits behind a length guard that is still fresh, and nothing is indexed before the first call; (R4) indices only ++/reset and the element index advances exactly once per call. "
+     "Right level: the property quantifies over all geometries incl. runs of empty members and all float values; R1 is exhaustive over the order domain (so exact for all non-NaN floats), R2–R4 cover all paths of the code.",
+     "Not decided: that exactly Len() calls succeed (needs an inductive invariant relating indices to the call count); NaN and -0 behaviour of math.Min/Max. Assumes the closure invariant 'member iterator p corresponds to the current member index' holds at entry (it is re-established on every path that changes the index).",
+     None)
 prop("C05", False, "", "", "", NOT_YET)
 prop("C06", False, "", "", "", NOT_YET)
 prop("C07", False, "", "", "", NOT_YET)
 prop("C08", False, "", "", "", NOT_YET)
 prop("C09", False, "", "", "", NOT_YET)
-prop("C10", False, "", "", "", NOT_YET)
+prop("C10", True,
+     "path-sensitive error-before-use dataflow, affine index-map analysis of the copy loops, shape checks on the type-checked AST; SSA effect analysis of the transformer closures",
+     "Geometry side: (R3) in all eight Transform methods a member result returned with an error is never asserted/indexed/returned-with-nil before the error is tested; (R4) nil transformer returns the receiver, otherwise a fresh value of the receiver's shape filled by out[i]=t(in[i]) over the full range with X/Y passed and stored in order, the receiver never written, *Bounds becomes the 4-corner ring in ring order. Projection side (R1/R2) see level_note.",
+     "Not decided: numerical equality with a fresh transformer (follows from 'no state survives' only assuming deterministic float arithmetic). R1/R2 (per-call state in proj.NewTransform, constant index guard) are armed only once listed in the evidence's rule list.",
+     None)
 prop("C11", False, "", "", "", NOT_YET)
 prop("C12", False, "", "", "", NOT_YET)
 prop("C13", False, "", "", "", NOT_YET)
